@@ -23,7 +23,7 @@ class World(object):
     """one application per output family, reused for all its cases"""
 
     def __init__(self, fam, secret):
-        from spyne import Application, Service, srpc, Integer, Unicode, Fault, Iterable
+        from spyne import Application, Service, srpc, rpc, Integer, Unicode, Fault, Iterable
         from spyne.protocol.soap import Soap11, Soap12
         from spyne.protocol.xml import XmlDocument
         from spyne.protocol.json import JsonDocument
@@ -34,11 +34,18 @@ class World(object):
         self.fam, self.secret = fam, secret
         self.pending = [None]
         pend = self.pending
+        self.where = ['fn']
+        where = self.where
+        PROT = {'xml': XmlDocument, 'soap11': Soap11, 'soap12': Soap12, 'json': JsonDocument,
+                'yaml': YamlDocument, 'msgpack': MessagePackDocument, 'mprpc': MessagePackRpc, 'http': HttpRpc}
 
         class S(Service):
-            @srpc(Integer, _returns=Integer)
-            def f(a):
-                pend[0]()
+            @rpc(Integer, _returns=Integer)
+            def f(ctx, a):
+                if where[0].startswith('sw_'):
+                    ctx.out_protocol = PROT[where[0][3:]]()     # this request answers in another protocol
+                if where[0] != 'retlis':
+                    pend[0]()
                 return 424242
 
             @srpc(Unicode, Integer, _returns=(Unicode, Integer))
@@ -50,9 +57,12 @@ class World(object):
             def gen(a):
                 pend[0]()
                 yield 424242
-        outp = {'xml': XmlDocument, 'soap11': Soap11, 'soap12': Soap12, 'json': JsonDocument,
-                'yaml': YamlDocument, 'msgpack': MessagePackDocument, 'mprpc': MessagePackRpc,
-                'http': HttpRpc}[fam]()
+
+        def after_return(ctx):
+            if where[0] == 'retlis':
+                pend[0]()
+        S.event_manager.add_listener('method_return_object', after_return)
+        outp = PROT[fam]()
         self.app = Application([S], 'tns', in_protocol=HttpRpc(), out_protocol=outp)
         self.wsgi = WsgiApplication(self.app)
         # loopback client: same protocol on both sides
@@ -227,8 +237,10 @@ def run(ctx):
             w = worlds[c['fam']] = World(c['fam'], secret)
         raiser, box = make_raiser(c, secret)
         w.pending[0] = raiser
+        w.where[0] = c['where']
         status, headers, body, esc = w.call(c['meth'])
-        obs = observe(c['fam'], status, headers, body, esc, box, secret)
+        w.where[0] = 'fn'
+        obs = observe(c['where'][3:] if c['where'].startswith('sw_') else c['fam'], status, headers, body, esc, box, secret)
         case = dict(c)
         if case['f']['kind'] == 'fault':
             case = json.loads(json.dumps(c)); case['f']['msg'] = 'same'
@@ -251,7 +263,7 @@ def run(ctx):
                 cl = sorted(p[2])
                 dcls = {'none': 'none', 'multi': 'multi-key'}.get(c['f']['detail'], 'single-key')
                 key = '%s|fam=%s|kind=%s|cls=%s|detail=%s' % (
-                    '+'.join(cl), c['fam'], c['f']['kind'],
+                    '+'.join(cl), c['fam'] + ('' if c['where'] == 'fn' else '>' + c['where']), c['f']['kind'],
                     c['f']['cls'] if c['f']['kind'] == 'exc' or c['f']['cls'] not in ('fault', 'subclass') else 'fault',
                     dcls)
                 if 'SameCode' in cl or 'StatusOk' in cl:
@@ -281,7 +293,7 @@ def loopback(ctx, cases, worlds, secret):
         w = worlds[c['fam']]
         if w.capp is None:
             continue
-        if c['meth'] != 'f':
+        if c['meth'] != 'f' or c['where'] != 'fn':
             continue
         raiser, box = make_raiser(c, secret)
         w.pending[0] = raiser
